@@ -172,6 +172,11 @@ func (m *module) loadModule(proj *Project, rawLabel string) (starlark.StringDict
 	}
 	label, _ = label.RelativeTo(m.label.Package)
 	label.Kind = "module"
+	if label.Name == "" {
+		// A label without a name refers to the package's BUILD.dawn (see fetchModule). Spell it out so that the
+		// module is registered, waited for and executed under one label however it is referred to.
+		label.Name = "BUILD.dawn"
+	}
 
 	m.dependencies = append(m.dependencies, label.String())
 	return proj.loadModule(m, label)
